@@ -44,7 +44,6 @@ type val struct {
 	b  bool
 	m  *omap
 	a  []val
-	fn *funcLit
 }
 
 var vAbsent = val{k: kAbsent}
@@ -292,7 +291,7 @@ func fromMlrval(m *mlrval.Mlrval) val {
 	case mlrval.MT_INT:
 		i, _ := m.GetIntValue()
 		return vInt(i)
-	case mlrval.MT_BOOLEAN:
+	case mlrval.MT_BOOL:
 		b, _ := m.GetBoolValue()
 		return vBool(b)
 	case mlrval.MT_STRING, mlrval.MT_VOID:
@@ -312,6 +311,8 @@ func fromMlrval(m *mlrval.Mlrval) val {
 		return vArr(a)
 	case mlrval.MT_ERROR:
 		return vErr
+	case mlrval.MT_NULL:
+		return val{k: kNull}
 	case mlrval.MT_FUNC:
 		return val{k: kFunc}
 	}
